@@ -135,7 +135,7 @@ class DocGen:
     def bool_var(self, value=None):
         name = "b%d" % len(self.vars)
         v = self.rng.random() < 0.5 if value is None else value
-        self.vars[name] = (N("Boolean") if self.rng.random() < 0.5 else NN(N("Boolean")), v)
+        self.vars[name] = (NN(N("Boolean")), v)
         return name, v
 
     def directives(self):
@@ -143,8 +143,9 @@ class DocGen:
         if r > 0.22:
             return ""
         out = []
-        for _ in range(1 if self.rng.random() < 0.8 else 2):
-            d = self.rng.choice(["skip", "include"])
+        names = ["skip", "include"]
+        self.rng.shuffle(names)
+        for d in names[:1 if self.rng.random() < 0.8 else 2]:
             if self.rng.random() < 0.5:
                 out.append("@%s(if: %s)" % (d, self.rng.choice(["true", "false"])))
             else:
@@ -226,7 +227,12 @@ class DocGen:
         kind = s["types"].get(t, {"kind": "SCALAR"})["kind"]
         if alias is None:
             alias = rng.random() < 0.2
-        head = ("al_%s: " % f["name"] if alias else "") + f["name"] + self.args_text(f) + self.directives()
+        at = self.args_text(f)
+        if at:      # the response key determines the arguments: same key => same arguments (mergeable)
+            key = "k_%s_%d: " % (f["name"], zlib.crc32(at.encode()) % 100000)
+        else:
+            key = "al_%s: " % f["name"] if alias else ""
+        head = key + f["name"] + at + self.directives()
         if kind in ("OBJECT", "INTERFACE", "UNION"):
             if depth >= self.max_depth:
                 return head + " { __typename }"
@@ -251,25 +257,31 @@ class DocGen:
             ops.append((k, body))
         # all variables are declared on every operation that exists (unused ones would be
         # refused by validation, so with several operations each gets the full body of op 0)
-        decl = ", ".join("$%s: %s" % (n, type_sdl(t)) for n, (t, _v) in self.vars.items())
-        decl = "(%s)" % decl if decl else ""
-        texts = []
-        used_frags = set()
-        for k, body in ops:
-            name = "Op%d" % k if (n_ops > 1 or self.rng.random() < 0.3) else ""
-            texts.append("%s %s%s { %s }" % (kind, name, decl, body if k == 0 or not self.vars else ops[0][1]))
-        alltext = " ".join(texts)
-        # only keep fragments that are (transitively) used
+        import re
         frag_texts = {n: "fragment %s on %s { %s }" % (n, c, b) for n, c, b in self.fragments}
-        used = set()
-        frontier = [n for n in frag_texts if "..." + n in alltext]
-        while frontier:
-            n = frontier.pop()
-            if n in used:
-                continue
-            used.add(n)
-            frontier += [m for m in frag_texts if "..." + m in frag_texts[n]]
-        order = [n for n, _c, _b in self.fragments if n in used]
+
+        def reach(text):
+            used, frontier = set(), [n for n in frag_texts if re.search(r"\.\.\.%s\b" % n, text)]
+            while frontier:
+                n = frontier.pop()
+                if n in used:
+                    continue
+                used.add(n)
+                frontier += [m for m in frag_texts if re.search(r"\.\.\.%s\b" % m, frag_texts[n])]
+            return used
+
+        texts, all_used = [], set()
+        for k, body in ops:
+            used = reach(body)
+            all_used |= used
+            reachable_text = body + " " + " ".join(frag_texts[n] for n in used)
+            # exactly the variables this operation uses (directly or through fragments)
+            names = [n for n in self.vars if re.search(r"\$%s\b" % n, reachable_text)]
+            decl = ", ".join("$%s: %s" % (n, type_sdl(self.vars[n][0])) for n in names)
+            decl = "(%s)" % decl if decl else ""
+            name = "Op%d" % k if (n_ops > 1 or self.rng.random() < 0.3) else ""
+            texts.append("%s %s%s { %s }" % (kind, name, decl, body))
+        order = [n for n, _c, _b in self.fragments if n in all_used]
         self.rng.shuffle(order)                       # fragments defined before / after use
         pieces = texts + [frag_texts[n] for n in order]
         variables = {n: v for n, (_t, v) in self.vars.items() if v is not self.ABSENT}
@@ -599,7 +611,7 @@ def observation_coq(resp, rec):
 def usercode_coq(s, rec):
     rtab = coq_list(["(%s, %s, %s, %s)" % (plain_path_coq(c["path"]), coq_string(c["ptype"]), coq_string(c["field"]),
                                           uret_coq(c["ret"])) for c in rec.calls])
-    ttab = coq_list(["(%s, %s, (URet %s))" % (plain_path_coq(c["path"]), coq_string(c["abstract"]), model_value(c["ret"]))
+    ttab = coq_list(["(%s, %s, (URet %s))" % (coq_string(c["abstract"]), model_value(c["value"]), model_value(c["ret"]))
                      for c in rec.tr_calls])
     return "(table_usercode %s %s %s %s %s)" % (
         coq_list(["(%s, %s)" % (coq_string(a), coq_string(b)) for a, b in sorted(s["resolvers"])]),
